@@ -604,11 +604,19 @@ func runStructCase(raw json.RawMessage, w *TraceWriter) {
 type recDirect struct {
 	pieces [][]byte
 	remain []int
+	// failFrom: from the k-th call on (1-based; 0 = never) WriteDirect takes the piece AND reports an error (a writer
+	// whose flush-side bookkeeping failed): the piece was handed over and is spliced like any other
+	failFrom int
 }
+
+var errDirect = errors.New("verif: the direct writer reports an error")
 
 func (r *recDirect) WriteDirect(b []byte, remainCap int) error {
 	r.pieces = append(r.pieces, append([]byte(nil), b...))
 	r.remain = append(r.remain, remainCap)
+	if r.failFrom > 0 && len(r.pieces) >= r.failFrom {
+		return errDirect
+	}
 	return nil
 }
 
@@ -620,12 +628,12 @@ func runNocopyRaw(c *StructCase, w *TraceWriter, seeds []int) {
 	if len(val) >= 4096 {
 		nlarge = 1
 	}
-	variants := [][2]int{{1, 0}, {0, 0}, {1, 1 + int(uint32(c.I)%97)}, {1, 4096}}
+	variants := [][2]int{{1, 0}, {0, 0}, {1, 1 + int(uint32(c.I)%97)}, {1, 4096}, {2, 0}}
 	if len(val) > 1<<28 {
 		variants = variants[:1] // (a GiB is not copied four times)
 	}
 	for _, hs := range variants {
-		has := hs[0] == 1
+		has := hs[0] >= 1
 		slack := int(c.I % 7)
 		// spare capacity behind the destination's length (a pooled buffer cut to size): positions count from len, never from cap
 		buf := make([]byte, 4+len(val)+slack, 4+len(val)+slack+hs[1])
@@ -633,6 +641,9 @@ func runNocopyRaw(c *StructCase, w *TraceWriter, seeds []int) {
 			buf[i] = 0xA5
 		}
 		rd := &recDirect{}
+		if hs[0] == 2 { // the writer takes the piece and reports an error
+			rd.failFrom = 1
+		}
 		var nw thrift.NocopyWriter
 		if has {
 			nw = rd
@@ -755,8 +766,15 @@ func runNocopy(c *StructCase, w *TraceWriter, seeds []int) {
 	copyret := v.FastWriteNocopy(copybuf, nil)
 	// {writer?, spare capacity behind the destination's length, bytes of the destination BEHIND the struct}: the struct may
 	// be a nested field of a larger message, so positions count from the end of the caller's buffer, not of the struct
-	for _, hs := range [][3]int{{1, 0, 0}, {0, 0, 0}, {1, 1 + int(uint32(c.I)%97), 0}, {1, 0, 1}, {1, 3, 9}} {
+	for vi, hs := range [][3]int{{1, 0, 0}, {0, 0, 0}, {1, 1 + int(uint32(c.I)%97), 0}, {1, 0, 1}, {1, 3, 9}, {1, 0, 0}, {1, 2, 0}} {
 		has, spare, tailLen := hs[0] == 1, hs[1], hs[2]
+		failFrom := 0
+		if vi >= 5 { // the last two variants: the writer reports an error from the 1st / the last piece on
+			failFrom = 1
+			if vi == 6 && nlarge > 1 {
+				failFrom = nlarge
+			}
+		}
 		func() {
 			defer func() {
 				if p := recover(); p != nil {
@@ -768,7 +786,7 @@ func runNocopy(c *StructCase, w *TraceWriter, seeds []int) {
 			for i := range buf {
 				buf[i] = 0xA5
 			}
-			rd := &recDirect{}
+			rd := &recDirect{failFrom: failFrom}
 			var nw thrift.NocopyWriter
 			if has {
 				nw = rd
